@@ -163,6 +163,9 @@ def main(run):
     t5, _ = explore_replay(run, "OrderTwoAlphabet", "LayoutIncFiles", 3 if thorough else 2, 2, [512], {"harness_link": True}, nontrivial,
                            label=f"AsmCore order across 2 linked files x <= {3 if thorough else 2} stmts: an exported name also defined privately (exhaustive)", timeout=6000)
     tasks += t5
+    t6, _ = explore_replay(run, "OrderErrAlphabet", "LayoutIncFiles", 4, 1, [512], {"harness_link": True}, lambda r: True,
+                           label="AsmCore order, unused definitions whose value is an error or not (all programs of <= 4 statements)", timeout=3000)
+    tasks += t6
     recs2, inc2 = explore(run, "OrderAlphabet", "LayoutIncFiles", 7, 1, [512], simulate=(6000 if thorough else 700), depth=8,
                           seed=run.seed + 13, label="AsmCore order simulation (<= 7 stmts)")
     tasks += replay_all(run, recs2, inc2, {"harness_link": True}, nontrivial)
